@@ -316,3 +316,4 @@ def c09_publish_queries(tier):
                          desc='v-table pointers published by update (%s) from an arbitrary earlier state' % nm,
                          symbolic='state left by earlier updates incl. which classes the persistent table already knows'))
     return qs
+
